@@ -13,7 +13,7 @@ timeout 3000 cargo test --offline --test seeded_$name > $out/confirm_without.log
 git apply $out/patch.diff || { echo '{"error":"patch does not apply"}' > $out/confirm.json; exit 1; }
 timeout 3000 cargo test --offline --test seeded_$name > $out/confirm_with.log 2>&1; rc_with=$?
 mv tests/seeded_$name.rs /tmp/seeded_$name.rs.aside
-timeout 3000 cargo test --offline --workspace > $out/confirm_suite.log 2>&1; rc_suite=$?
+timeout 3000 cargo test --offline --workspace --no-fail-fast > $out/confirm_suite.log 2>&1; rc_suite=$?
 git reset -q --hard; git clean -qfd tests
 echo "{\"name\":\"$name\",\"demo_without_change_rc\":$rc_without,\"demo_with_change_rc\":$rc_with,\"suite_with_change_rc\":$rc_suite,\"repo_head\":\"$(git -C /repo rev-parse --short HEAD)\"}" > $out/confirm.json
 cat $out/confirm.json
